@@ -2,6 +2,7 @@ import P2P.Drv.Proto
 import P2P.Drv.Psize
 import P2P.Model.ChargeGuard
 import P2P.Model.ChargeTable
+import P2P.Model.OptionGate
 
 namespace P2P.Drv.ChargeGuardD
 open P2P P2P.Drv P2P.ChargeGuard
@@ -22,6 +23,18 @@ def handlers : List (String × Handler) := [
           | .noHeavyError => "ValueError" | .noHeavyLigand => "False:warning" | .clean => "False:info"
           | .tooMany => "False:error" | .repair => "True")
       | _, _ => str "bad-op"
+    | _ => str "bad-op"),
+  ("option.gate", fun a => match a with
+    | [un, uf, ff, dat, lig, ph, nn, nc] =>
+      let ob (s : Str) : Option Bool := if s = str "-" then none else some (decBool s)
+      let phv : P2P.OptionGate.PH :=
+        if ph = str "-inf" then .neginf else if ph = str "inf" then .posinf else if ph = str "nan" then .nan else .fin (decInt ph)
+      let r : P2P.OptionGate.Req := ⟨ob un, ob uf, if ff = str "-" then none else some (unhex ff), decBool dat, ob lig, phv, decBool nn, decBool nc⟩
+      str (match P2P.OptionGate.gate r with
+        | none => "pass" | some .usernamesMissing => "usernamesMissing" | some .userffMissing => "userffMissing"
+        | some .userffWithoutUsernames => "userffWithoutUsernames" | some .ffDatMissing => "ffDatMissing"
+        | some .ligandMissing => "ligandMissing" | some .phRange => "phRange"
+        | some .neutralnNotParse => "neutralnNotParse" | some .neutralcNotParse => "neutralcNotParse")
     | _ => str "bad-op"),
   ("charge.formalname", fun a => match a with
     | [n] => intStr (P2P.ChargeTable.formalOfName (unhex n))
